@@ -181,7 +181,7 @@ PROPS["C17"] = {
     "assumptions": ["I6"],
 }
 PROPS["C18"] = {
-    "level_text": "Theorems (Lean 4, demultiplexer transition system, every reachable state): what a logical connection has been handed is a prefix of the log of hand-offs for it, all with its key, an in-order sublist of the shared transport's input filtered by that key, and for a key never cancelled exactly that filtered sequence (demux_per_key_fifo, demux_per_key_fifo_single_epoch); the input equals the hand-off log position for position - nothing handed twice or to two connections (demux_exactly_once); exactly one announcement per connection object, one live object per key (demux_announce_once_per_epoch); what reaches the shared transport per connection is exactly what was accepted on it, in order (demux_write_passthrough); no reachable panic; after Cancel a pending Read/Write has an enabled failing completion and Run is not held up (cancelled_key_fails_not_blocks_not_panics); after Stop, Run exits within two own steps (stop_ends_run). Negative witnesses for both flags. Tied to /repo by flags, skeletons and an exact lock-step (`dmseq`) of a real Demux against Demux.step: all sequences of <=3 envelopes over <=3 keys x consumption orders, forced Cancel/Stop placements via yield hooks, random mixes, plus complete RPC workloads from several logical clients over one shared transport.",
+    "level_text": "Theorems (Lean 4, demultiplexer transition system, every reachable state): what a logical connection has been handed is a prefix of the log of hand-offs for it, all with its key, an in-order sublist of the shared transport's input filtered by that key, and for a key never cancelled exactly that filtered sequence (demux_per_key_fifo, demux_per_key_fifo_single_epoch); the input equals the hand-off log position for position - nothing handed twice or to two connections (demux_exactly_once); exactly one announcement per connection object, one live object per key (demux_announce_once_per_epoch); what reaches the shared transport per connection is exactly what was accepted on it, in order (demux_write_passthrough); no reachable panic; after Cancel a pending Read/Write has an enabled failing completion and Run is not held up (cancelled_key_fails_not_blocks_not_panics); a Cancel closes only a `done` channel that is still open and touches no other connection, a repeated Cancel is a no-op (cancel_closes_open_done_only, cancel_twice_is_cancel_once); after Stop, Run exits within two own steps (stop_ends_run). Negative witnesses for both flags. Tied to /repo by flags, skeletons and an exact lock-step (`dmseq`) of a real Demux against Demux.step: all sequences of <=3 envelopes over <=3 keys x consumption orders, forced Cancel/Stop placements via yield hooks, random mixes, plus complete RPC workloads from several logical clients over one shared transport.",
     "level_note": "Trusted: Lean kernel; extractor; harness. I5: announced exactly once per epoch between Cancels of the key.",
     "technique": "Lean 4 proof (inductive invariant with history variables over the demux LTS) + exact lock-step of a real Demux against Demux.step + forced schedules",
     "props": ["Goat.DemuxThms"],
